@@ -38,7 +38,7 @@ pub struct DiameterClient {
     config: DiameterClientConfig,
     address: String,
     writer: Option<Arc<Mutex<dyn AsyncWrite + Send + Unpin>>>,
-    msg_caches: Arc<Mutex<HashMap<u32, Sender<DiameterMessage>>>>,
+    msg_caches: Arc<Mutex<MsgCaches>>,
     seq_num: u32,
 }
 
@@ -58,7 +58,7 @@ impl DiameterClient {
             config,
             address: addr.into(),
             writer: None,
-            msg_caches: Arc::new(Mutex::new(HashMap::new())),
+            msg_caches: Arc::new(Mutex::new(MsgCaches::default())),
             seq_num: 0,
         }
     }
@@ -148,19 +148,28 @@ impl DiameterClient {
                     if let Err(e) = Self::process_decoded_msg(handler.msg_caches.clone(), res).await
                     {
                         log::error!("Failed to process response; error: {:?}", e);
+                        Self::close(&handler.msg_caches).await;
                         return;
                     }
                 }
                 Err(e) => {
                     log::error!("Failed to read message from socket; error: {:?}", e);
+                    Self::close(&handler.msg_caches).await;
                     return;
                 }
             }
         }
     }
 
+    /// Marks the connection as closed and releases every waiting response future.
+    async fn close(msg_caches: &Arc<Mutex<MsgCaches>>) {
+        let mut msg_caches = msg_caches.lock().await;
+        msg_caches.closed = true;
+        msg_caches.waiters.clear();
+    }
+
     async fn process_decoded_msg(
-        msg_caches: Arc<Mutex<HashMap<u32, Sender<DiameterMessage>>>>,
+        msg_caches: Arc<Mutex<MsgCaches>>,
         res: DiameterMessage,
     ) -> Result<()> {
         let hop_by_hop = res.get_hop_by_hop_id();
@@ -168,7 +177,7 @@ impl DiameterClient {
         let sender_opt = {
             let mut msg_caches = msg_caches.lock().await;
 
-            msg_caches.remove(&hop_by_hop)
+            msg_caches.waiters.remove(&hop_by_hop)
         };
         match sender_opt {
             Some(sender) => {
@@ -200,7 +209,10 @@ impl DiameterClient {
             let hop_by_hop = req.get_hop_by_hop_id();
             {
                 let mut msg_caches = self.msg_caches.lock().await;
-                msg_caches.insert(hop_by_hop, tx);
+                if msg_caches.closed {
+                    return Err(Error::ClientError("Connection closed".into()));
+                }
+                msg_caches.waiters.insert(hop_by_hop, tx);
             }
             let mut writer = writer.lock().await;
             Codec::encode(&mut writer.deref_mut(), &req).await?;
@@ -222,7 +234,14 @@ impl DiameterClient {
 pub struct ClientHandler {
     // reader: ReadHalf<TcpStream>,
     reader: Box<dyn AsyncRead + Send + Unpin>,
-    msg_caches: Arc<Mutex<HashMap<u32, Sender<DiameterMessage>>>>,
+    msg_caches: Arc<Mutex<MsgCaches>>,
+}
+
+/// Waiting response futures keyed by hop-by-hop id, and whether the reader has stopped.
+#[derive(Default)]
+struct MsgCaches {
+    waiters: HashMap<u32, Sender<DiameterMessage>>,
+    closed: bool,
 }
 
 /// A future for receiving a Diameter message response.
